@@ -467,4 +467,78 @@ def attOfTriples : List (Str × Str × Nat) → List FileAtt
   | [] => []
   | (p, h, n) :: r => ⟨p, [⟨h, [.single n]⟩]⟩ :: attOfTriples r
 
+/-! ## 7. the note full replay writes for ONE rewritten commit (`note_for_rewritten_commit`,
+      /repo fix for O14): the state the replay has reached (cumulative) cut to the lines the
+      commit adds, with the prompt records of the sessions that wrote them -/
+
+/-- reference model of `git diff -U0 <first parent> <commit>`: line `j` of `path` is added by
+    the k-th commit of the range iff the ghost says it was born there -/
+def addedBy (k : Nat) (t : GTree) (path : Str) (j : Nat) : Bool :=
+  match lineOf t path j with
+  | some l => decide (l.born = k)
+  | none => false
+
+/-- lines of the replayed note of the k-th commit: the state (`cumulativeLines`: every AI line of
+    the range present in the commit's tracked files) restricted to the lines the commit adds -/
+def replayLines (k : Nat) (tk : GTree) : List (Str × Str × Nat) :=
+  (cumulativeLines tk).filter (fun t => addedBy k tk t.1 t.2.2)
+
+/-- a prompt record: session hash and the record's text as the metadata prints it -/
+abbrev Rec := Str × Str
+
+def sessionsOf (ls : List (Str × Str × Nat)) : List Str := ls.map (·.2.1)
+
+def countOf (h : Str) (ls : List (Str × Str × Nat)) : Nat := (ls.filter (fun t => t.2.1 = h)).length
+
+/-- prompt records of the replayed note of a commit that rewrites a commit whose note has the
+    records `recs` and the lines `origLines` (`recount` = the record with `accepted_lines` set
+    anew):  a session the new note's lines refer to keeps that record — unchanged when all of its
+    lines arrive, recounted otherwise; a record the original note carries without lines stays;
+    a record whose lines did not arrive goes. -/
+def replayRecs (recount : Str → Nat → Str) (recs : List Rec)
+    (origLines noteLines : List (Str × Str × Nat)) : List Rec :=
+  recs.filterMap fun r =>
+    if (sessionsOf noteLines).contains r.1 then
+      if countOf r.1 noteLines = countOf r.1 origLines then some r
+      else some (r.1, recount r.2 (countOf r.1 noteLines))
+    else if (sessionsOf origLines).contains r.1 then none
+    else some r
+
+/-- Ghost labelling of a repository for one rewritten range: what each blob of a tracked file
+    holds (lines with provenance relative to the range), each commit's position in its range
+    (1-based; a rewritten commit has the position of the commit it rewrites), the prompt
+    records of each original commit's note, and serde's rendering of the metadata around the
+    base value. -/
+structure Ghost where
+  content : Oid → List GLine
+  index : Oid → Nat
+  recs : Oid → List Rec
+  render : List Rec → Str
+  pre : Str
+  w1 : Str
+  w2 : Str
+  recount : Str → Nat → Str
+
+/-- the tracked files of a commit, as ghost lines -/
+def ghostTree (g : Ghost) (c : Commit) (tracked : List Str) : GTree :=
+  tracked.filterMap fun p =>
+    match lookup p c.files with
+    | some b => some (p, g.content b)
+    | none => none
+
+/-- the note the post-commit path wrote for an original commit: the AI lines it added, its
+    sessions' records -/
+def ghostOrigNote (g : Ghost) (o : Commit) (tracked : List Str) : Str :=
+  serialize (attOfTriples (perCommitLines (g.index o.id) (ghostTree g o tracked)))
+    (metaJson g.pre g.w1 g.w2 (jsonEscape o.id) (g.render (g.recs o.id)))
+
+/-- the note full replay writes for the rewritten commit `n` of the pair `(o, n)` -/
+def replayNote (g : Ghost) (o n : Commit) (tracked : List Str) : Str :=
+  let k := g.index o.id
+  let lines := replayLines k (ghostTree g n tracked)
+  let origLines := perCommitLines k (ghostTree g o tracked)
+  serialize (attOfTriples lines)
+    (metaJson g.pre g.w1 g.w2 (jsonEscape n.id)
+      (g.render (replayRecs g.recount (g.recs o.id) origLines lines)))
+
 end GitAi.Remap
